@@ -55,6 +55,13 @@ def check(run):
     st = run.explore('compound messages of 2..3 units out of 4 queries, a command, an undefined header and a rejected query, with and without a trailing ";": responses in execution order, each followed by its own newline and flush before the next unit writes',
                      COMP + ({'k': 3},), 600)
     records.extend(st['records'])
+    NUM = ('mirsym.checks.response_level', 'NumericWriterCheck')
+    st = run.explore('numeric extremes: twin', NUM + ({'twin': True},), 300)
+    if not any(r.get('violations') for r in st['records']):
+        raise Inconclusive('vacuity twin (numeric extremes) found nothing')
+    st = run.explore('23 concrete numeric extremes (float texts of up to 101 characters, integer bounds of every width) through the pass-through writer and the real heapless::Vec<u8,256> writer: '
+                     'text equal to an independent formatter', NUM + ({},), 300)
+    records.extend(st['records'])
     # exactly one response per executed query also when the messages arrive through process (no duplicates, nothing left in the buffer)
     LIB = ('mirsym.checks.process_level', 'LibraryProcess')
     st = run.explore('through process::<16>: streams of 1..2 library messages (answered / failing queries, commands, a query in front of a payload newline), whole, byte-wise, one and two cuts: '
